@@ -201,3 +201,71 @@ def run(ctx):
                 chk.sample({"flatten_step": k})
             else:
                 chk.violation("R03.3", "too-small", "deep->flat nesting step %d < 100: an operator of an inner group can lose against an outer one with priority up to 99" % k, loc(span))
+
+    unary_kept(chk, fb)
+
+
+def unary_kept(chk, fb, RID="R03.5"):
+    """R03.5: flat -> deep, per node.  A flat node carries its own unary composition (a literal's is applied when the
+    expression is compiled, but expressions built by operate_unary / differentiation / substitution are not compiled
+    again).  The converter may hand back the bare node only on a path where that composition is known to be empty;
+    otherwise the node has to be wrapped into an expression carrying exactly that composition."""
+    from analysis import rel
+    from analysis.interp import Interp, Policy, Sym, Variant, show
+    chk.rule(RID, "flat -> deep: a node is returned bare only if its unary composition is empty, otherwise wrapped with exactly that composition - for every node kind")
+    cb = fb.find_bodies(lambda b: b["path"].endswith("flat::detail::convert_node"))
+    if len(cb) != 1:
+        chk.violation(RID, "anchor", "flat::detail::convert_node not found")
+        return
+    b = cb[0]
+
+    class P(Policy):
+        loop_mode = "widen"
+        max_depth = 3
+
+        def inline_closure(self, closure_path, args, interp, path):
+            return False
+    names = [b["locals"][i].get("name") or "a%d" % i for i in range(1, b["arg_count"] + 1)]
+    node = next((n for i, n in enumerate(names, 1) if "FlatNode<" in b["locals"][i]["ty"]), None)
+    if node is None:
+        chk.unrecognised(RID, "shape", "convert_node has no FlatNode parameter", loc(b["span"]))
+        return
+    UOP = ".unary_op(%s)" % node
+    allp = Interp(fb, P()).run(b, [Sym(n) for n in names])
+    kinds = set()
+    n = 0
+    for p in allp:
+        if p.status in ("unreachable", "loop-pruned"):
+            continue
+        if p.status != "return":
+            if p.status == "unrecognised":
+                chk.unrecognised(RID, "shape", "convert_node: %s" % p.note, loc(b["span"]))
+            continue
+        n += 1
+        r = p.result
+        kind = next((x[2] for k, x in p.trace if k == "d" and x[0] == "switch" and show(x[1]) == "discr(.kind(%s))" % node), "?")
+        kinds.add(kind)
+        txt = show(r)
+        if isinstance(r, Variant) and (r.variant or "").endswith("Expr"):
+            if "op: %s" % UOP in txt or "op: std::clone::Clone::clone(%s)" % UOP in txt:
+                chk.ok(RID, "%s node wrapped with its own composition" % kind, txt[:120], loc(b["span"]))
+            else:
+                chk.violation(RID, "wrapped:%s" % kind, "convert_node wraps a %s node into an expression whose unary composition is not the node's own: %s" % (kind, txt[:200]), loc(b["span"]))
+            continue
+        F = rel.Facts(p)
+        empty = False
+        for a, op, c in F.rel:
+            sa, sc = show(a), show(c)
+            if UOP in sa and "len(" in sa and ((op == "<=" and sc.startswith("0_")) or (op == "==" and sc.startswith("0_"))):
+                empty = True
+            if UOP in sc and "len(" in sc and op == "==" and sa.startswith("0_"):
+                empty = True
+        for t, v in F.true:
+            if v and UOP in show(t) and "is_empty(" in show(t):
+                empty = True
+        if empty:
+            chk.ok(RID, "%s node returned bare under `composition is empty`" % kind, "", loc(b["span"]))
+        else:
+            chk.violation(RID, "bare:%s" % kind, "convert_node returns a %s node without its unary operators on a path that does not establish that the node's unary composition is empty: converting a flat expression whose %s node carries unary operators (operate_unary, derivatives, substitution results are not compiled again) changes its value" % (
+                kind, kind), loc(b["span"]))
+    chk.floor(RID, "node kinds converted", len(kinds - {"?"}), 2)
